@@ -9,7 +9,7 @@ import shutil
 import tempfile
 from pathlib import Path
 
-from ..core.runner import HarnessError
+from ..core.runner import HarnessError, guarded
 from . import odecommon as oc
 
 LEVEL = "exploration"
@@ -474,7 +474,7 @@ def run(ctx):
     cli = [(i, s) for i, s, _ in work if all(not n.startswith(("#", "G")) for n, _, _ in s)][:: (9 if ctx.tier == "quick" else 4)]
     ncli = 0
     with mp.get_context("fork").Pool(ctx.workers, maxtasksperchild=1) as pool:
-        for n, viols in pool.imap_unordered(run_cli_slice, cli):
+        for n, viols in pool.imap_unordered(guarded(run_cli_slice), cli):
             ncli += n
             ctx.absorb(viols)
     ctx.assumptions += [
